@@ -2,8 +2,14 @@ package chn
 
 import (
 	"context"
+	"encoding/binary"
 	"fmt"
 	"time"
+
+	"go.uber.org/zap"
+
+	"go.brendoncarroll.net/p2p/f/x509"
+	"go.brendoncarroll.net/p2p/p/p2pke"
 
 	"go.brendoncarroll.net/p2p/zsimrt"
 
@@ -23,8 +29,13 @@ import (
 // channel reports as RemoteKey, at most once per channel object; the sender's
 // buffers are not modified; no plaintext appears on the wire.
 //
-//	legs: chan-replay (no restart), chan-restart (one side is replaced by a fresh Channel mid-run)
+//	legs: chan-replay (no restart), chan-restart (one side is replaced by a fresh Channel mid-run),
+//	chan-sess-concurrent (several tasks call Session.Send on ONE established Session concurrently)
 func RunC02(st *simcore.Stream, tier, leg string, logOn bool, res *simcore.Result) {
+	if leg == "chan-sess-concurrent" {
+		runSessConcurrent(st, logOn, res)
+		return
+	}
 	w := NewWorld(st, res, logOn)
 	w.DrawTimers()
 	w.Sim.MaxSteps = 300000
@@ -136,7 +147,7 @@ func RunC02(st *simcore.Stream, tier, leg string, logOn bool, res *simcore.Resul
 	var keep []simcore.Violation
 	for _, v := range res.Violations {
 		switch v.Class {
-		case "plaintext-not-from-peer", "delivered-twice", "plaintext-on-wire", "sender-buffer-modified":
+		case "plaintext-not-from-peer", "delivered-twice", "plaintext-on-wire", "sender-buffer-modified", "counter-reused":
 			keep = append(keep, v)
 		default:
 			res.Probe("other-property-violation-seen:" + v.Class)
@@ -152,4 +163,110 @@ func RunC02(st *simcore.Stream, tier, leg string, logOn bool, res *simcore.Resul
 		sample = sample[:10]
 	}
 	res.Sample = sample
+}
+
+// runSessConcurrent: p2pke.Session is an exported type whose Send is meant to be
+// callable from several goroutines (atomic outbound counter). Two real Sessions
+// complete a handshake, then 2-4 tasks call Send on the same Session under the
+// parking scheduler (which interleaves at every atomic operation). Oracle: no
+// two emitted messages carry the same counter, and the peer decrypts every one
+// of them to the plaintext that was passed to that Send, exactly once.
+func runSessConcurrent(st *simcore.Stream, logOn bool, res *simcore.Result) {
+	w := NewWorld(st, res, logOn)
+	w.Sim.MaxSteps = 50000
+	privA, _ := key("A", 1)
+	privB, _ := key("B", 2)
+	nTasks := 2 + st.Intn(3)
+	per := 1 + st.Intn(6)
+	both := st.Bool(1, 2)
+	res.Cfg = map[string]any{"leg": "chan-sess-concurrent", "tasks": nTasks, "perTask": per, "bothDirections": both}
+	type sent struct {
+		from  int
+		plain string
+		wire  []byte
+	}
+	var wires []sent
+	done, want, np := 0, 0, 0
+	w.Sim.Run(func() {
+		now := time.Now()
+		mk := func(priv x509.PrivateKey, isInit bool) *p2pke.Session {
+			return p2pke.NewSession(p2pke.SessionConfig{Registry: reg, PrivateKey: priv, IsInit: isInit, Now: now, RejectAfter: time.Hour, Logger: zap.NewNop()})
+		}
+		ss := []*p2pke.Session{mk(privA, true), mk(privB, false)}
+		// lossless in-order handshake
+		msg := ss[0].Handshake(nil)
+		for turn, n := 1, 0; msg != nil && n < 8; turn, n = 1-turn, n+1 {
+			_, out, err := ss[turn].Deliver(nil, msg, now)
+			if err != nil {
+				panic(err)
+			}
+			msg = out
+		}
+		if !ss[0].IsReady() || !ss[1].IsReady() {
+			// the responder becomes ready with the first data: send one message each way sequentially
+			for i := 0; i < 2; i++ {
+				if out, err := ss[i].Send(nil, []byte("warm-up"), now); err == nil {
+					ss[1-i].Deliver(nil, out, now)
+				}
+			}
+		}
+		for dir := 0; dir < 2; dir++ {
+			if dir == 1 && !both {
+				break
+			}
+			for k := 0; k < nTasks; k++ {
+				want++
+				zsimrt.Go(fmt.Sprintf("session-sender-%d", dir), func() {
+					for i := 0; i < per; i++ {
+						np++
+						pt := fmt.Sprintf("CONC%05d:%x", np, st.Intn(1<<30))
+						zsimrt.Yield("harness/before-session-send")
+						out, err := ss[dir].Send(nil, []byte(pt), now)
+						if err != nil {
+							res.Probe("session-send-error")
+							continue
+						}
+						res.Probe("session-send-ok")
+						wires = append(wires, sent{dir, pt, out})
+					}
+					done++
+				})
+			}
+		}
+		zsimrt.WaitUntil("harness/senders-done", func() bool { return done >= want })
+		// (1) counters are unique per direction
+		seen := map[string]int{}
+		for i, x := range wires {
+			res.Checks++
+			k := fmt.Sprintf("%d/%d", x.from, binary.BigEndian.Uint32(x.wire[:4]))
+			if j, dup := seen[k]; dup {
+				res.Violate(w.step(), "counter-reused", "two concurrent Send calls on one Session produced messages with the same counter %s (plaintexts %q and %q): two ciphertexts under one key and counter", k, wires[j].plain, x.plain)
+			}
+			seen[k] = i
+		}
+		// (2) the peer decrypts each to its own plaintext, once
+		got := map[string]int{}
+		for _, x := range wires {
+			res.Checks++
+			isApp, out, err := ss[1-x.from].Deliver(nil, x.wire, now)
+			if err == nil && isApp {
+				got[string(out)]++
+				if string(out) != x.plain {
+					res.Violate(w.step(), "plaintext-not-from-peer", "a message produced by Send(%q) decrypted to %q at the peer", x.plain, trunc(out))
+				}
+			}
+		}
+		for _, x := range wires {
+			if got[x.plain] > 1 {
+				res.Violate(w.step(), "delivered-twice", "plaintext %q was handed to the application %d times", x.plain, got[x.plain])
+			}
+			if got[x.plain] == 1 {
+				res.Probe("app-data-delivered")
+			}
+		}
+		w.Finished = true
+	})
+	FillStats(res, w)
+	res.Nontrivial = len(wires) > 1 && w.Sim.Stats.MultiRunnable > 0
+	res.Sample = []string{fmt.Sprintf("%d concurrent Session.Send calls in %d tasks; %d messages", np, want, len(wires))}
 }
